@@ -200,6 +200,11 @@ def run(facts, rep, tier, ctx):
     pr = PathRules(facts, ws)
     n = pr.table_p(rep, "R01.1")
     rep.floor("Table P obligations", n, 25)
+    # create_dir_all is the one composite the adapters themselves rely on (overlay parent materialisation)
+    pr.create_dir_all(rep, "R01.1c")
+    from . import c13
+    k = c13.sites_for(facts, rep, ctx["V"], "R01.1c", lambda r: r.name == "create_dir_all")
+    rep.floor("create_dir_all slicing sites", k, 6)
     found, n2, mm = table_m(facts, rep, "R01.2", "R01.2k")
     rep.floor("Table M obligations", n2, 28)
     n3 = failed_primitive_unchanged(facts, rep, "R01.3", mm)
